@@ -17,7 +17,11 @@ CTYPE = {8: "8", 16: "16", 32: "32", 64: "64"}
 
 def c06_desc(rng, odd):
     """One flat CAN message (1..8 signals, any order of types, offsets up to 64 bits); `odd` admits widths outside 8/16/32/64."""
-    desc = {"enums": [{"name": "Mode", "vals": [("Off", 0), ("On", 1), ("Err", rng.choice([2, 3, 5, 9, 17, 200]))]}], "structs": [], "impls": []}
+    # the largest enumerator decides the width: just below, at and just above powers of two, also beyond one byte
+    top = rng.choice([2, 3, 5, 9, 17, 200, 255, 256, 256, 257, 300, 512, 512, 65536])
+    packed = 1 if top <= 1 else top.bit_length()
+    enum_w = 1 << (packed - 1).bit_length()
+    desc = {"enums": [{"name": "Mode", "vals": [("Off", 0), ("On", 1), ("Err", top)]}], "structs": [], "impls": []}
     fields, total = [], 0
     for j in range(rng.randint(1, 8)):
         r = rng.random()
@@ -25,8 +29,8 @@ def c06_desc(rng, odd):
             t, w = ("f32",), 32
         elif r < 0.17:
             t, w = ("f64",), 64
-        elif r < 0.3:
-            t, w = ("enum", "Mode"), 8
+        elif r < 0.38:
+            t, w = ("enum", "Mode"), enum_w
         else:
             w = rng.choice([8, 8, 16, 32, 64]) if not (odd and rng.random() < 0.5) else rng.choice([1, 3, 4, 7, 12, 24, 33])
             t = (rng.choice(["u", "i"]), w)
@@ -104,6 +108,9 @@ def build_one(args):
     return fcp, im, pieces, exe, None
 
 
+enum_values = {}
+
+
 def gen_member(rng, p):
     from fcp.specs import type as T
     if type(p.type) is T.FloatType:
@@ -116,7 +123,9 @@ def gen_member(rng, p):
         n = p.type.get_length()
         return rng.choice([-(1 << (n - 1)), -1, 0, 1, (1 << (n - 1)) - 1, rng.randint(-(1 << (n - 1)), (1 << (n - 1)) - 1)])
     if type(p.type) is T.EnumType:
-        return rng.choice([0, 1, 1, 0, 2])          # 2 is a value of Mode only for some schemas; any 8-bit pattern must survive the frame
+        # the enumerators themselves (the largest one decides the width), and now and then any pattern of the field's width
+        top = (1 << p.bitlength) - 1
+        return rng.choice([0, 1, 2] + list(enum_values.get(p.type.name, [])) * 2 + [rng.randint(0, top)])
     n = p.type.get_length()
     return rng.choice([0, 1, (1 << n) - 1, rng.randrange(1 << n)])
 
@@ -134,7 +143,7 @@ def run(chk):
     nsch, nval = (48, 30) if quick else (1200, 80)
     broken = chk.proof_obligations(["Corr/CanC.vo"])
     chk.coverage["rule"] = (
-        "one flat CAN message per schema (with up to three sibling messages on the same or another device before and after it, frame ids incl. 0 and 2047): 1-8 signals in any order of types (8/16/32/64-bit integers, f32, f64, an enum; in a third of the schemas "
+        "one flat CAN message per schema (with up to three sibling messages on the same or another device before and after it, frame ids incl. 0 and 2047): 1-8 signals in any order of types (8/16/32/64-bit integers, f32, f64, an enum whose largest enumerator lies around a power of two up to 65536, exercised with its own enumerators; in a third of the schemas "
         "also widths outside 8/16/32/64), offsets up to 64 bits; the real generator's C is compiled with gcc -O1 -fno-strict-aliasing against a "
         "generated driver that fills the message struct, calls can_encode_msg and can_decode_msg; frame (id, dlc, data) and decoded members are "
         "compared in Coq with the model; non-trivial = >= 2 signals; distinct = (schema, values)")
@@ -165,6 +174,8 @@ def run(chk):
                     fails.append({"kind": "generated-c-" + ("generator-raised" if err[0] == "raise" else "does-not-compile"), "schema": text, "error": err[1][-300:]})
                 continue
             chk.hist("outcome", "runs")
+            enum_values.clear()
+            enum_values.update({e.name: [x.value for x in e.enumeration] for e in ref.enums})
             lines, allvals = [], []
             for _ in range(nval):
                 vals = [gen_member(chk.rng, p) for p in pieces]
